@@ -232,3 +232,8 @@ package json
 //@ loop 3 invariant forall k string :: { has(attrSchemas, k) } has(attrSchemas, k) ==> attrSchemas[k].Name == k
 //@ loop 4 invariant (forall k string :: { has(attrSchemas, k) } has(attrSchemas, k) ==> attrSchemas[k].Name == k) && usedNames != nil && fresh(usedNames) && content != nil && fresh(content) && content.Attributes != nil && fresh(content.Attributes) && (forall k string :: { has(b.hiddenAttrs, k) } has(b.hiddenAttrs, k) ==> has(usedNames, k)) && (forall k string :: { has(content.Attributes, k) } has(content.Attributes, k) ==> !has(b.hiddenAttrs, k) && has(usedNames, k))
 //@ loop 5 invariant usedNames != nil && fresh(usedNames) && content != nil && fresh(content) && content.Attributes != nil && fresh(content.Attributes) && (forall k string :: { has(b.hiddenAttrs, k) } has(b.hiddenAttrs, k) ==> has(usedNames, k)) && (forall k string :: { has(content.Attributes, k) } has(content.Attributes, k) ==> !has(b.hiddenAttrs, k) && has(usedNames, k))
+// JustAttributes never returns a property that an earlier partial step hid (nor the "//" comment key).
+// verif:func (*body).JustAttributes
+//@ nosafety
+//@ ensures visible: forall k string :: { has(ret0, k) } has(ret0, k) ==> !has(b.hiddenAttrs, k) && k != "//"
+//@ loop 1 invariant attrs != nil && fresh(attrs) && (forall k string :: { has(attrs, k) } has(attrs, k) ==> !has(b.hiddenAttrs, k) && k != "//")
